@@ -5,6 +5,15 @@ HERE = os.path.dirname(os.path.dirname(os.path.abspath(__file__)))
 sys.path.insert(0, os.path.join(HERE, "tools"))
 import verif_props
 
+def technique_of(c):
+    gens = [g["script"] for g in c.get("generators", [])]
+    base = "Lean 4 theorems (machine-checked proof) over an executable model"
+    if gens:
+        return (base + "; model parts regenerated from /repo's source on every run by " + ", ".join("tools/" + g for g in gens)
+                + " with tie theorems (regenerated definition = hand model) as proof obligations; plus a differential correspondence run of the hand model against the real headers")
+    return base + " written by hand + differential correspondence run against the real headers (the model's executable definitions and the implementation on the same generated operation sequences)"
+
+
 props = [json.loads(l) for l in open(os.path.join(HERE, "properties.jsonl"))]
 ids = [p["id"] for p in props]
 checks = []
@@ -21,7 +30,7 @@ for pid in ids:
         "engine": "lean-model",
         "level_claimed": {"category": "proof", "text": c["level_text"], "design_ref": c.get("design_ref", "DESIGN.md §6 " + pid)},
         "level_note": c["level_note"],
-        "technique": c.get("technique", "Lean 4 theorems over a hand-written executable model + differential correspondence run against the real headers"),
+        "technique": c.get("technique", technique_of(c)),
     })
 na_path = os.path.join(HERE, "tools", "not_applicable.json")
 na = json.load(open(na_path)) if os.path.exists(na_path) else {}
